@@ -378,7 +378,7 @@ def gen_response(rng, lax=True):
     return head + body
 
 
-MUTATIONS = ["nonutf8_err", "huge_cl", "dup_cl", "sign_cl", "space_cl", "us_cl", "uni_cl", "empty_cl", "cl_te", "te_list", "te_twice", "te_bad",
+MUTATIONS = ["lfcr", "te_empty", "value_trailing_ctl", "chunk_size_lf", "nonutf8_err", "huge_cl", "dup_cl", "sign_cl", "space_cl", "us_cl", "uni_cl", "empty_cl", "cl_te", "te_list", "te_twice", "te_bad",
              "lf_for_crlf", "cr_only", "obs_fold", "ctl_value", "ctl_name", "ctl_target", "ws_before_colon", "ws_name_lead",
              "no_colon", "chunk_plus", "chunk_0x", "chunk_space", "chunk_empty", "chunk_big", "chunk_ext_lf", "chunk_no_crlf",
              "bad_trailer", "no_host", "dup_host", "empty_host", "byte_flip", "byte_insert", "byte_delete", "truncate",
@@ -394,6 +394,25 @@ def mutate(rng, data, kind=None):
         i = d.find(b"\r\n")
         return d[:i + 2] + extra + d[i + 2:] if i >= 0 else d + extra
 
+    if kind == "lfcr":
+        # LF CR instead of CR LF at some line ends (a lax parser sees an LF-terminated line and a stray CR)
+        idx = [i for i in range(len(d) - 1) if d[i:i + 2] == b"\r\n"]
+        if not idx: return d, kind
+        for i in rng.sample(idx, min(len(idx), rng.choice([1, 1, 2, 3]))):
+            d = d[:i] + b"\n\r" + d[i + 2:]
+        return d, kind
+    if kind == "te_empty":
+        te = rng.choice([b"", b" ", b"\t", b" ,", b","])
+        return after_first_line(b"Transfer-Encoding:" + te + b"\r\n" + (b"Content-Length: 5\r\n" if rng.random() < 0.7 else b"")) + (b"hello" if rng.random() < 0.5 else b""), kind
+    if kind == "value_trailing_ctl":
+        c = bytes([rng.choice([10, 13, 11, 12, 0, 9, 32, 127])]) * rng.choice([1, 1, 2])
+        h = rng.choice([b"Host: a", b"Content-Length: 5", b"Transfer-Encoding: chunked", b"X-V: v", b"Connection: close"])
+        return after_first_line(h + c + b"\r\n"), kind
+    if kind == "chunk_size_lf":
+        head = b"POST /c HTTP/1.1\r\nHost: h\r\nTransfer-Encoding: chunked\r\n\r\n"
+        body = rng.choice([b"5\n\r\nhello\r\n0\r\n\r\n", b"5\r\nhello\r\n0\n\r\n\r\n", b"5\n;ext\r\nhello\r\n0\r\n\r\n", b"5\r\r\nhello\r\n0\r\n\r\n",
+                           b"5\x0b\r\nhello\r\n0\r\n\r\n", b"5 \r\nhello\r\n0\r\n\r\n", b"5\r\nhello\r\n0\r\nX: y\n\r\n\r\n"])
+        return head + body + b"GET /next HTTP/1.1\r\nHost: h\r\n\r\n", kind
     if kind == "nonutf8_err":
         # a syntax error next to a byte that is not valid UTF-8: the error path must still produce a 400
         return rng.choice([
